@@ -303,17 +303,19 @@ def o14_7(tier):
                 def fvc_getattr(self, it, name):
                     return ModelFn("iterrows", lambda it_: [(0, Row())])
 
-            class Self:
-                def fvc_getattr(self, it, name):
-                    return ModelFn("get_cells", lambda it_: DF())
-            me = Self()
+            # the reader object itself is a real (allocated) SurfaceEvolver that outlives the call - whatever the method stores on it
+            # stays referenced; only its table of face records is given
+            ctx.stub(SE + ":SurfaceEvolver.get_cells", lambda it_, a, k: DF(), "face records as a table (pandas, A-pandas): given")
+            me = ctx.alloc(cls(ctx, SE, "SurfaceEvolver"))
         else:
             pd = ctx.module("pandas")
+            SEC = cls(ctx, SE, "SurfaceEvolver")
 
-            class Self:
+            class Self(SEC):
                 def get_cells(self_):
                     return pd.DataFrame({"id": [3], "edges": [[5, -8, 2]], "pressures": [pressure]})
-            me = Self()
+            me = object.__new__(Self)
+            KEEP.append(me)
         out = ctx.run_fragment(SE, stmts, dict(vertices=vertices, edges=edges, self=me))
         ek, vk = ctx.keys(out["edges"]), ctx.keys(out["vertices"])
         ctx.ensure(sorted(ek) == [2, 5, 8], "edges kept = the face's edges (incl. the one referenced only as -8); chord 11 and dangling 12 dropped")
